@@ -21,9 +21,7 @@ def askJson : Ask → Json
   | .x509Parse der => Json.mkObj [("ask", "x509Parse"), ("der", hex der)]
   | .x509CheckSig der alg msg sig =>
     Json.mkObj [("ask", "x509CheckSig"), ("der", hex der), ("alg", alg), ("msg", hex msg), ("sig", hex sig)]
-  | .tpmCertInfo raw => Json.mkObj [("ask", "tpmCertInfo"), ("raw", hex raw)]
-  | .tpmPubArea raw => Json.mkObj [("ask", "tpmPubArea"), ("raw", hex raw)]
-  | .tpmAlgHash a => Json.mkObj [("ask", "tpmAlgHash"), ("alg", a)]
+  | .tpmHashes => Json.mkObj [("ask", "tpmHashes")]
   | .sanView der => Json.mkObj [("ask", "sanView"), ("der", hex der)]
   | .safetyNet raw => Json.mkObj [("ask", "safetyNet"), ("raw", hex raw)]
   | .jwsHeaders raw => Json.mkObj [("ask", "jwsHeaders"), ("raw", hex raw)]
@@ -76,22 +74,14 @@ def parseResp (q : Ask) (j : Json) : Except String Resp := do
     return .bytes (← getHex j "bytes")
   | .jwsHeaders _ => return .nat (← getNat j "nat")
   | .sigVerify .. | .x509CheckSig .. => return .bool (← getBool j "bool")
-  | .tpmAlgHash _ => return .nat (← getNat j "nat")
   | .sanView _ => return .san (← parseSans j)
   | .x509Parse _ => return .cert (← parseCert j)
-  | .tpmCertInfo _ =>
-    let name ← match ← getStr j "nameKind" with
-      | "digest" => pure (TpmName.digest (← getNat j "nameAlg") (← getHex j "nameValue"))
-      | "handle" => pure TpmName.handle
-      | _ => pure TpmName.none
-    return .certInfo { magic := ← getNat j "magic", type := ← getNat j "type", extraData := ← getHex j "extraData",
-                       hasCertifyInfo := ← getBool j "hasCertifyInfo", name := name, encoded := ← getHexOpt j "encoded" }
-  | .tpmPubArea _ =>
-    let key ← match j.getObjVal? "key" with
-      | .ok Json.null => pure none
-      | .ok k => do pure (some (← parseKeyMat k))
-      | .error _ => pure none
-    return .pubArea { nameAlg := ← getNat j "nameAlg", key := key, encoded := ← getHexOpt j "encoded" }
+  | .tpmHashes =>
+    let hs ← (← getArr j "hashes").toList.mapM fun p => do
+      match p with
+      | Json.arr #[a, b] => pure ((← a.getNat?), (← b.getNat?))
+      | _ => throw "hashes: expected [alg, id] pairs"
+    return .hashTable hs
   | .safetyNet _ =>
     return .safetyNet { parsed := ← getBool j "parsed", chainsOK := ← getBool j "chainsOK",
                         claimsOK := ← getBool j "claimsOK", nonce := ← getHex j "nonce" }
